@@ -120,6 +120,12 @@ func (g *genState) newPod() *PodSpec {
 	g.npod++
 	p := &PodSpec{ID: fmt.Sprintf("pod%d", g.npod), Name: fmt.Sprintf("p%d", g.npod)}
 	p.Namespace = verifrt.Pick(r, []string{"default", "default", "default", "ns1", "kube-system", "reserved-a", "monitoring"})
+	if len(g.pods) > 0 && r.Chance(0.08) && g.prop != "C15" {
+		// a pod re-created under the name of an earlier one (new sandbox id)
+		// while the old one may still be around
+		old := verifrt.Pick(r, g.pods)
+		p.Name, p.Namespace = old.Name, old.Namespace
+	}
 	p.QoS = verifrt.Pick(r, []string{"Guaranteed", "Guaranteed", "Guaranteed", "Burstable", "Burstable", "BestEffort"})
 	p.Labels = map[string]string{"app": fmt.Sprintf("a%d", r.Intn(3))}
 	ann := map[string]string{}
@@ -167,6 +173,12 @@ func (g *genState) newPod() *PodSpec {
 	}
 	if r.Chance(0.1) {
 		ann[form("prefer-cpu-priority."+rns)] = verifrt.Pick(r, []string{"high", "normal", "low", "none"})
+	}
+	if r.Chance(0.08) {
+		ann[form("rdtclass."+rns)] = verifrt.Pick(r, []string{"gold", "silver"})
+	}
+	if r.Chance(0.08) {
+		ann[form("blockioclass."+rns)] = verifrt.Pick(r, []string{"fast", "slow"})
 	}
 	if g.policy == "balloons" && r.Chance(0.2) {
 		ann[form("balloon.balloons."+rns)] = verifrt.Pick(r, []string{"bt0", "bt1", "default", "reserved"})
